@@ -24,10 +24,14 @@ fn g_mutbytes<B: MutBytes>(b: &mut B) { b.as_mut_slice()[0] = 1; }
 fn g_bytearray<B: ByteArray<32>>(b: &B) -> u8 { b.as_array()[0] }
 fn g_mutbytearray<B: MutByteArray<32>>(b: &mut B) { b.as_mut_array()[0] = 1; }
 fn main() {
+    body();
+    std::process::exit(0);
+}
+fn body() {
     let src = [7u8; 32];
 """
-FOOTER = """    std::process::exit(0);
-}
+# every local is dropped when body() returns: releasing a region (wipe, unlock, unprotect) is part of each permitted program
+FOOTER = """}
 """
 
 
@@ -51,6 +55,50 @@ def reach(container, state):
         return rw + "    let mut r = r.munlock().unwrap();\n    let mut r = r.mprotect_noaccess().unwrap();\n", True
     # Locked+NoAccess only exists as a type on Linux (mlock of PROT_NONE memory fails at run time): compile-only
     return rw + "    let mut r = r.munlock().unwrap();\n    let mut r = r.mprotect_noaccess().unwrap();\n    let mut r = r.mlock().unwrap();\n", False
+
+
+# other ways to obtain a protected region (the main table starts from from_slice_into_locked / _readonly_locked): each
+# (container, origin) is taken to every state by unlock -> protect -> lock and a light set of permitted programs is run,
+# the plain "let it drop" program included
+ORIGINS = {
+    "HeapBytes": [
+        ("HeapBytes::from(&[u8]).mlock()", "RwL", "    let mut r = HeapBytes::from(&src[..]).mlock().unwrap();\n"),
+        ("new_locked()+resize", "RwL", "    let mut r = HeapBytes::new_locked().unwrap();\n    r.resize(32, 7);\n"),
+        ("clone of a locked region", "RwL", "    let r0 = HeapBytes::from_slice_into_locked(&src).unwrap();\n    let mut r = r0.clone();\n"),
+        ("clone of a read-only locked region", "RoL", "    let r0 = HeapBytes::from_slice_into_readonly_locked(&src).unwrap();\n    let mut r = r0.clone();\n"),
+    ],
+    "HeapByteArray<32>": [
+        ("StackByteArray::mlock()", "RwL", "    let mut r = StackByteArray::<32>::from(src).mlock().unwrap();\n"),
+        ("StackByteArray::mprotect_readonly()", "RoU", "    let mut r = StackByteArray::<32>::from(src).mprotect_readonly().unwrap();\n"),
+        ("HeapByteArray::from(&[u8;N]).mlock()", "RwL", "    let mut r = HeapByteArray::<32>::from(&src).mlock().unwrap();\n"),
+        ("new_locked()", "RwL", "    let mut r = HeapByteArray::<32>::new_locked().unwrap();\n"),
+        ("gen_locked()", "RwL", "    let mut r = HeapByteArray::<32>::gen_locked().unwrap();\n"),
+        ("new_readonly_locked()", "RoL", "    let mut r = HeapByteArray::<32>::new_readonly_locked().unwrap();\n"),
+        ("gen_readonly_locked()", "RoL", "    let mut r = HeapByteArray::<32>::gen_readonly_locked().unwrap();\n"),
+    ],
+}
+LIGHT_OPS = {
+    "drop_only": "let unused = 0;",
+    "read_view(as_slice)": "let v = r.as_slice().len();",
+    "mutable_view(as_mut_slice)": "r.as_mut_slice()[0] = 1;",
+    "unlock": "let t = r.munlock();",
+    "read_write_then_write": "let mut t = r.mprotect_readwrite().unwrap(); t.as_mut_slice()[0] = 1;",
+}
+
+
+def path(origin_state, target):
+    """transitions from origin_state to target: unlock, set the protection, lock"""
+    pm, lm = origin_state[:2], origin_state[2]
+    steps = ""
+    if origin_state == target:
+        return steps
+    if lm == "L":
+        steps += "    let mut r = r.munlock().unwrap();\n"
+    if pm != target[:2]:
+        steps += "    let mut r = r.mprotect_%s().unwrap();\n" % {"Rw": "readwrite", "Ro": "readonly", "Na": "noaccess"}[target[:2]]
+    if target[2] == "L":
+        steps += "    let mut r = r.mlock().unwrap();\n"
+    return steps
 
 
 # operation -> statement (the single statement that differs between a misuse program and its control)
@@ -169,6 +217,21 @@ def programs():
                     progs.append(dict(cell=cell, kind="optional_control", grade=None, line=line, runnable=runnable, src=body + "    " + stmt + "\n" + FOOTER))
                 else:
                     progs.append(dict(cell=cell, kind="misuse", grade="named", line=line, runnable=runnable, src=body + "    " + stmt + " // MISUSE\n" + FOOTER))
+    for container, origins in ORIGINS.items():
+        for oname, ostate, ocode in origins:
+            for state in STATES:
+                if state == "NaL":
+                    continue
+                prefix = ocode + path(ostate, state)
+                for op, stmt in LIGHT_OPS.items():
+                    pm = state[:2]
+                    if op == "read_view(as_slice)" and pm == "Na":
+                        continue
+                    if op == "mutable_view(as_mut_slice)" and pm != "Rw":
+                        continue
+                    cell = "%s via %s|%s|%s" % (container, oname, STATE_NAME[state], op)
+                    body = HEADER + prefix
+                    progs.append(dict(cell=cell, kind="control", grade=None, line=body.count("\n") + 1, runnable=True, src=body + "    " + stmt + "\n" + FOOTER))
     # streams
     sp = HEADER + "    let key = Key::gen();\n    let (mut push, header): (DryocStream<Push>, Header) = DryocStream::init_push(&key);\n    let mut pull = DryocStream::init_pull(&key, &header);\n    let c: Vec<u8> = push.push_to_vec(b\"hello\", None, Tag::MESSAGE).unwrap();\n"
     line = sp.count("\n") + 1
@@ -185,13 +248,14 @@ def programs():
     return progs
 
 
-def dryoc_rlib(ctx):
+def dryoc_rlib(ctx, release=False):
     """builds the nightly harness from /repo's working tree and returns (rlib of dryoc, deps dir)"""
-    ctx["build"]("ni")
+    ctx["build"]("ni-rel" if release else "ni")
     env = dict(ctx["env"])
     tdir = os.path.join(ctx["cache"], "target-nightly")
     env["CARGO_TARGET_DIR"] = tdir
-    p = subprocess.run(["cargo", "+nightly", "build", "--profile", "verif", "--bin", "vmon", "--features", "nightly", "--offline", "--message-format=json"],
+    prof = ["--release"] if release else ["--profile", "verif"]
+    p = subprocess.run(["cargo", "+nightly", "build"] + prof + ["--bin", "vmon", "--features", "nightly", "--offline", "--message-format=json"],
                        cwd=os.path.join(ctx["root"], "harness"), env=env, stdout=subprocess.PIPE, stderr=subprocess.PIPE, text=True)
     rlib = None
     for line in p.stdout.splitlines():
@@ -207,7 +271,7 @@ def dryoc_rlib(ctx):
                     rlib = f
     if rlib is None:
         raise ctx["Inconclusive"]("could not locate the dryoc rlib of the nightly build")
-    return rlib, os.path.join(tdir, "verif", "deps")
+    return rlib, os.path.join(tdir, "release" if release else "verif", "deps")
 
 
 def run(ctx):
@@ -252,6 +316,41 @@ def run(ctx):
         return i, res
     with ThreadPoolExecutor(max_workers=16) as ex:
         results = dict(ex.map(compile_and_run, enumerate(progs)))
+
+    # the permitted programs once more as a release user would build them: dryoc's release rlib, no debug assertions in the
+    # program (generic code of the crate is instantiated there), optimisation on
+    rlib_r, deps_r = dryoc_rlib(ctx, release=True)
+
+    def run_release(item):
+        i, pr = item
+        src = os.path.join(work, "p%03d.rs" % i)
+        exe = os.path.join(work, "r%03d" % i)
+        cmd = ["rustc", "+nightly", "--edition", "2021", "--extern", "dryoc=" + rlib_r, "-L", "dependency=" + deps_r, "--crate-name", "r%03d" % i,
+               "-C", "opt-level=2", "-C", "debug-assertions=off", "-o", exe, src]
+        l = subprocess.run(cmd, env=ctx["env"], stdout=subprocess.PIPE, stderr=subprocess.PIPE, text=True, timeout=600)
+        if l.returncode != 0:
+            return i, "build_failed: " + l.stderr[-300:]
+        try:
+            r = subprocess.run([exe], stdout=subprocess.PIPE, stderr=subprocess.PIPE, text=True, timeout=60)
+            return i, r.returncode
+        except subprocess.TimeoutExpired:
+            return i, "timeout"
+    rel_items = [(i, pr) for i, pr in enumerate(progs) if pr["kind"] in ("control", "control_of_misuse") and pr["runnable"] and results[i]["compiles"]
+                 and (" via " in pr["cell"] or pr["kind"] == "control")]
+    with ThreadPoolExecutor(max_workers=16) as ex:
+        rel_results = dict(ex.map(run_release, rel_items))
+    for i, rc in rel_results.items():
+        pr = progs[i]
+        m.evals += 1
+        if rc != 0:
+            case = dict(cell=pr["cell"], kind=pr["kind"], build="release rlib, program built with -C opt-level=2 -C debug-assertions=off", run=rc, program=pr["src"])
+            if isinstance(rc, str) and rc.startswith("build_failed"):
+                m.problems.append("release build of a permitted program failed: %s" % rc[:200])
+            else:
+                m.add_viol("C20|permitted_program_faults_at_run_time(release build)|%s" % pr["cell"].split("|")[-1], 1, case, meta)
+        else:
+            d = m.cov.setdefault("control_outcome", {})
+            d["runs(release build)"] = d.get("runs(release build)", 0) + 1
 
     samples = []
     for i, pr in enumerate(progs):
